@@ -487,7 +487,9 @@ func (e *lifeEnv) sdocSvc(s CEnt, props map[string]interface{}) *docdid.Service 
 // the further properties of the caller's services: text, and numbers of either sign (whole, fractional, the largest
 // whole number a double holds exactly)
 func lifeSvcProps() map[string]interface{} {
-	return map[string]interface{}{"custom": "v", "utcOffset": -5, "ratio": -0.25, "zero": 0, "floor": -9007199254740991, "nested": map[string]interface{}{"delta": []interface{}{-1, 1, -1.5e-7, -1e21}}}
+	return map[string]interface{}{"custom": "v", "utcOffset": -5, "ratio": -0.25, "zero": 0, "floor": -9007199254740991, "nested": map[string]interface{}{"delta": []interface{}{-1, 1, -1.5e-7, -1e21},
+		// (member names whose UTF-16 order differs from their UTF-8 / code point order)
+		"\uff21": 1, "\U0001f600": 2, "\ue000": 3}}
 }
 
 // at the level of the request builders an anchor origin is any JSON value: an object in the odd steps
@@ -1149,11 +1151,13 @@ func clientTrace(args []string) {
 
 	randUpd := func() lUpd {
 		for {
-			u := lUpd{AddKeys: ents(3, 3, 2), RemKeys: ints(3, 1), AddSvcs: ents(2, 2, 1), RemSvcs: ints(2, 1), AddAka: ints(2, 1), RemAka: ints(2, 1)}
+			u := lUpd{AddKeys: ents(3, 3, 2), RemKeys: ints(3, 2), AddSvcs: ents(2, 2, 1), RemSvcs: ints(2, 2), AddAka: ints(2, 1), RemAka: ints(2, 2)}
 
 			// (one URI is not added and removed by the same update: the two patches would contradict each other)
-			if len(u.AddAka) > 0 && len(u.RemAka) > 0 && u.AddAka[0] == u.RemAka[0] {
-				u.RemAka = []int{}
+			for _, r := range u.RemAka {
+				if len(u.AddAka) > 0 && u.AddAka[0] == r {
+					u.RemAka = []int{}
+				}
 			}
 
 			if len(u.AddKeys)+len(u.RemKeys)+len(u.AddSvcs)+len(u.RemSvcs)+len(u.AddAka)+len(u.RemAka) > 0 {
